@@ -573,3 +573,7 @@ META = {
     'technique': 'static analysis: dict-key typestate along exception-aware CFG paths with computed method effect summaries, path checks of open modes, comparison-predicate enumeration of the raise guard',
     'design_ref': 'DESIGN.md section 5, C19',
 }
+
+
+from . import shared as _shared
+_shared.register('C19', 'C19')
